@@ -36,6 +36,41 @@ CHECKS = {
         note="Assumed (not proved): json, zlib, base64, UTF-8 library contracts listed in the evidence; trusted: pyvc array-string model, z3.",
         technique=TECH,
     ),
+    "C01": dict(
+        category="exploration",
+        text="Branch-suffix tables are proved (z3 FP) for all finite operands; the simulation contract of compile_code (emitted IC10 on a reference machine == source under the dialect) is a bounded stand-in evaluated on generated programs, because the code generator (astroid walkers) is outside the verifier's reach.",
+        design_ref="6.C01", note="Trusted: spec/ic10_machine.py, spec/dialect.py, spec/ic10_ops.py; bounded part never counted as proved; known findings replayed on every run.",
+        technique=TECH + "; bounded native contract check of compile_code as stand-in"),
+    "C02": dict(
+        category="exploration",
+        text="Relational contract on compile_code (all option vectors agree with the source semantics and hence with each other), bounded: covering array of option vectors on generated programs, all 256 vectors in the thorough tier.",
+        design_ref="6.C02", note="No function-level contract carries the property; bounded only. Trusted: reference machine and dialect.",
+        technique="bounded native check of a relational contract on compile_code (stand-in; the verifier cannot reach the astroid walkers)"),
+    "C05": dict(
+        category="exploration",
+        text="Label handling is regular-expression rewriting of text (outside SMT reach): bounded contract - every target resolves to one definition and the label-free output equals the token-wise substitution spec, on generated single- and multi-module programs.",
+        design_ref="6.C05", note="Trusted: the token-wise substitution spec (bounded/props.py), machine tokeniser.",
+        technique="bounded native contract check (stand-in)"),
+    "C06": dict(
+        category="exploration",
+        text="Shadow call stack on the reference machine: every executed return goes to the line after the call being served, the stack pointer at top-level yields is constant, effects agree with the source, for generated call graphs under both conventions, inlining and tail calls.",
+        design_ref="6.C06", note="Bounded only; trusted: spec/ic10_machine.py shadow call stack.",
+        technique="bounded native contract check on a reference machine with shadow call stack (stand-in)"),
+    "C07": dict(
+        category="exploration",
+        text="Region map on the reference machine: function regions are entered only by jal / tail-call jumps. The main-end fall-through is a recorded known finding; the remaining obligations keep reporting.",
+        design_ref="6.C07", note="Bounded only.",
+        technique="bounded native contract check on a reference machine with region map (stand-in)"),
+    "C13": dict(
+        category="exploration",
+        text="Multi-module programs are compiled and executed against a reference semantics that runs each module in its own namespace; never-called library code must not change the instruction sequence.",
+        design_ref="6.C13", note="Bounded only; relational whole-pipeline property.",
+        technique="bounded native contract check (stand-in)"),
+    "C17": dict(
+        category="exploration",
+        text="Statistics are recounted from result['code'] (lines, bytes with two-byte line ends, distinct allocated registers) for generated programs including libraries whose state lives only in module-level registers.",
+        design_ref="6.C17", note="Bounded; the proof of the statistics block is listed in DESIGN as planned.",
+        technique="bounded native contract check (stand-in)"),
 }
 NA = {}
 
